@@ -157,3 +157,13 @@ TEXT["C08"].update(note="Assumed: v6 prefixlen <= 128 (established by the loader
 TEXT["C05"].update(note=TEXT["C05"].get("note", "") + " ICMPv6 (radv/icmppkt.rs parse*) is NOT yet under contract; its serialiser is (C17).")
 
 NA = {}
+
+TEXT["C12"].update(engine="verus+kani",
+    technique="Verus: the real serialise_option and <DhcpOptions as Serialise>::serialise against the RFC 2132/3396 encoding (HashMap iteration via vstd's prophetic iterator contract), the real parse_options against the RFC decoding dec_opts, and a machine-checked round-trip lemma between the two specifications; "
+              "Kani complete harnesses on Dhcp::get_broadcast_flag and the Internet checksum primitives",
+    level="Unbounded deductive proof: for every option table (any number of options, values of any length including 0 and more than 255 octets -- split into runs of at most 255 --, codes 1..=254) the option area written is enc_table ++ [255], "
+          "and dec_opts(enc_table ++ [255]) is exactly the table (lemma_roundtrip); parse_options returns dec_opts of any byte string (repeated options concatenated, zero-length kept, pad skipped). "
+          "Complete (Kani): get_broadcast_flag() <=> flags & 0x8000 != 0 over all 65536 values; finish_netsum is the end-around-carry fold for all 2^32 partial sums and agrees with an independent reference. "
+          "Thorough tier only, undecided when CBMC times out: whole-frame length/checksum harnesses.",
+    note="NOT decided: the fixed 236-octet header part of Dhcp::serialise (serialise_fixed padding/truncation against parse's null_terminated), Ethernet/IPv4/UDP frame assembly beyond the checksum primitives (Kani times out on the Vec/Box frame builders; not yet in Verus). "
+         "Assumed: the encoder's HashMap view m@ and the decoder's abstract table opts_view describe the same table; Serialise for u8 pushes the octet; slice::chunks. Defect D12b (length octet wrap for values over 255 octets) found here and fixed (649d304).")
